@@ -244,7 +244,9 @@ unsafe impl GlobalAlloc for SimAlloc {
             if new.is_null() {
                 return new;
             }
-            std::ptr::copy_nonoverlapping(ptr, new, old_size.min(new_size));
+            // like GlobalAlloc's default realloc: what the caller *says* the old block holds is
+            // what gets copied (never more than the block really has)
+            std::ptr::copy_nonoverlapping(ptr, new, layout.size().min(new_size).min(old_size));
             tracked_free(i, layout, V_REALLOC_LAYOUT);
             return new;
         }
